@@ -270,14 +270,15 @@ CHECKS["C01"] = dict(
     explanation="posix PutObject -> GetObject/HeadObject/ListObjectsV2 through a fresh Posix value (another gateway process) on the file-system model: "
                 "symbolic body bytes, content type and user metadata; keys incl. nested and URL-reserved characters; both temp-file strategies. "
                 "Oracle: bytes, length, ETag = quoted hex MD5 (uninterpreted), content type and metadata read back; HEAD and listing agree with GET. "
-                "H01-copy: CopyObject to another key / bucket / onto itself with directive COPY or REPLACE: destination = source bytes + ETag, metadata per directive, source unchanged.",
+                "H01-e2e: PUT, GET, HEAD through the real route handlers over the real posix backend: bytes, length, ETag, content headers and user metadata. H01-copy: CopyObject to another key / bucket / onto itself with directive COPY or REPLACE: destination = source bytes + ETag, metadata per directive, source unchanged.",
     harnesses=[
         dict(name="H01-putget", entry="backend/posix.VfPutGet", reach=["read-back"], **_FS),
         dict(name="H01-two-processes", entry="backend/posix.VfOverwriteAcrossProcesses", reach=["checked"], **_FS),
         dict(name="H01-copy", entry="backend/posix.VfCopyRoundTrip", reach=["copied"], **_FS),
+        dict(name="H01-e2e", pkgs=["./s3api"], entry="s3api.VfPutGetE2E", redirects="spec/redirects_ctrl.json,spec/redirects_fs.json", reach=["read-back"]),
     ],
     assumptions=["file-system model as for C06", "MD5 is an uninterpreted function"],
-    outside=["multipart uploads (assembly is checked under C08; aws-chunked decoding under C12)", "copies of versions / with tagging or checksum directives", "sidecar metadata store", "HTTP header plumbing in the controllers", "bodies beyond the byte bound"],
+    outside=["multipart uploads (assembly is checked under C08; aws-chunked decoding under C12)", "copies of versions / with tagging or checksum directives", "sidecar metadata store", "headers other than Content-Type / Content-Encoding / Cache-Control / one x-amz-meta value in the end-to-end harness", "bodies beyond the byte bound"],
 )
 
 CHECKS["C04"] = dict(
